@@ -1,0 +1,33 @@
+//go:build verif
+
+package jmespath
+
+import (
+	"strings"
+
+	"github.com/woodsbury/jmespath/internal/evaluator"
+	"github.com/woodsbury/jmespath/internal/parser"
+)
+
+// VerifSetStepHook installs f to be called with the name of the AST node at
+// the entry of every evaluation step (nil removes it). Only available with the
+// verif build tag; used by the verification harness as a scheduler gate and
+// step counter.
+func VerifSetStepHook(f func(node string)) {
+	if f == nil {
+		evaluator.StepHook = nil
+		return
+	}
+
+	evaluator.StepHook = func(node parser.Node) {
+		f(node.String())
+	}
+}
+
+// VerifDumpAST returns the indented AST of a compiled expression, for
+// diagnostics only.
+func VerifDumpAST(e *Expression) string {
+	var b strings.Builder
+	_ = parser.WriteTo(&b, e.node)
+	return b.String()
+}
